@@ -15,3 +15,38 @@ MUTANTS = [
     dict(id="c01-rank-le", property="C01", edits=[(A, "if len(obj.shape) < len(cls.dims) - 1:", "if len(obj.shape) <= len(cls.dims) - 1:")]),
     dict(id="c01-prevB-memo-not-updated", property="C01", edits=[(A, "                        variadic_memo[name] = (broadcastable, broadcast_shape)\n", "                        pass\n")]),
 ]
+
+MUTANTS += [
+    # ---- C04
+    dict(id="c04-no-restore-on-false-array", property="C04", edits=[(A, """        else:
+            set_shape_memo(
+                single_memo_bak, variadic_memo_bak, pytree_memo_bak, arg_memo_bak
+            )
+            return check""", """        else:
+            return check""")]),
+    dict(id="c04-no-restore-on-exc-array", property="C04", edits=[(A, """        except BaseException:
+            set_shape_memo(
+                single_memo_bak, variadic_memo_bak, pytree_memo_bak, arg_memo_bak
+            )
+            raise""", """        except BaseException:
+            raise""")]),
+    dict(id="c04-restore-only-single", property="C04", edits=[(S, """        _shape_storage.memo_stack[-1] = (
+            single_memo,
+            variadic_memo,
+            pytree_memo,
+            arg_memo,
+        )""", """        _shape_storage.memo_stack[-1] = (
+            single_memo,
+            _shape_storage.memo_stack[-1][1],
+            _shape_storage.memo_stack[-1][2],
+            arg_memo,
+        )""")]),
+    dict(id="c04-no-restore-on-false-pytree", property="C04", edits=[(P, """        else:
+            set_shape_memo(
+                single_memo_bak, variadic_memo_bak, pytree_memo_bak, arg_memo_bak
+            )
+            return False""", """        else:
+            return False""")]),
+    dict(id="c04-except-exception-only", property="C04", edits=[(A, "        except BaseException:\n            set_shape_memo(", "        except Exception:\n            set_shape_memo(")]),
+    dict(id="c04-pytree-except-exception-only", property="C04", edits=[(P, "        except BaseException:\n            set_shape_memo(", "        except Exception:\n            set_shape_memo(")]),
+]
